@@ -9,22 +9,6 @@ import DateutilVerif.Proofs.RenderPrep
 namespace PM
 open Py PT
 
-/-- a filler word (decidable): ASCII letters only; not a number to `float()` (`inf`, `nan`, `infinity`); in none of the stock
-    parserinfo tables the scan consults (weekday, month, h/m/s unit, AM/PM); and not shaped like a zone abbreviation (at most five
-    characters, all of them upper case, or a UTC name) -/
-def fillerWord (w : Token) : Bool :=
-  isAlphaWord w && !floatOk asciiCls w && (stock.weekdayOf w).isNone && (stock.monthOf w).isNone &&
-    (stock.hmsOf w).isNone && (stock.ampmOf w).isNone &&
-    !(decide (w.length ≤ 5) && (w.all isAsciiUpper || stock.UTCZONE.contains w))
-
-/-- the characters / tokens of ` w₁ w₂ … wₙ` (each word after one space) -/
-def fillerChars (ws : List Token) : List Char := ws.flatMap (fun w => ' ' :: w)
-def fillerToks (ws : List Token) : List Token := ws.flatMap (fun w => [[' '], w])
-
-/-- the characters / tokens of `u₁ u₂ … uₙ ` (each word followed by one space) in front of the rendering -/
-def leadChars (us : List Token) : List Char := us.flatMap (fun w => w ++ [' '])
-def leadToks (us : List Token) : List Token := us.flatMap (fun w => [w, [' ']])
-
 /-- what the scan needs to know about one token it is to skip -/
 structure Inert (cls : Char → CClass) (info : Info) (w : Token) : Prop where
   flt : floatOk cls w = false
@@ -220,17 +204,107 @@ theorem parseResult_of_loop_fuzzy (cls : Char → CClass) (info : Info) (o : Opt
             | ok z => simp
             | error e => cases e <;> simp
 
+/-- `_recombine_skipped` never fails on indices of the token list -/
+theorem recombine_go_ok (tokens : List Token) (skipped : List Nat) :
+    ∀ (rest : List Nat) (i : Nat) (acc : List Token), (∀ k ∈ rest, k < tokens.length) → (i > 0 → acc ≠ []) →
+      ∃ r, recombineSkipped.go tokens skipped rest i acc = .ok r := by
+  intro rest
+  induction rest with
+  | nil => intro i acc _ _; exact ⟨acc, by simp [recombineSkipped.go]⟩
+  | cons idx rest ih =>
+    intro i acc hr hacc
+    have hidx : idx < tokens.length := hr idx List.mem_cons_self
+    have hrest : ∀ k ∈ rest, k < tokens.length := fun k hk => hr k (List.mem_cons_of_mem _ hk)
+    have ht : tokAt tokens idx = .ok tokens[idx] := by simp [tokAt, hidx]
+    simp only [recombineSkipped.go, ht, bind, Except.bind]
+    by_cases hc : i > 0 ∧ (skipped[i - 1]?).map (· + 1) = some idx
+    · simp only [hc, and_self, if_true]
+      have hne := hacc hc.1
+      cases hrev : acc.reverse with
+      | nil => simp at hrev; exact absurd hrev hne
+      | cons last revInit => exact ih (i + 1) _ hrest (fun _ => by simp)
+    · simp only [hc, if_false]
+      exact ih (i + 1) _ hrest (fun _ => by simp)
+
+theorem recombine_ok (tokens : List Token) (skipped : List Nat) (h : ∀ k ∈ skipped, k < tokens.length) :
+    ∃ r, recombineSkipped tokens skipped = .ok r := by
+  unfold recombineSkipped
+  exact recombine_go_ok tokens skipped _ 0 [] (fun k hk => h k ((List.mergeSort_perm skipped _).mem_iff.mp hk)) (by simp)
+
+/-- the fuzzy parse with the token tuple, once the scan has returned and the skipped tokens are recombined -/
+theorem parseResult_of_loop_fwt (cls : Char → CClass) (info : Info) (o : Opts) (tznames : List Token) (tzi : TzInfos) (dflt : DT)
+    (l : List Token) (st : PState) (hfwt : o.fuzzyWithTokens = true)
+    (hloop : parseLoop cls info true l.length l.length 0 0 { l := l } = .ok st)
+    (toks : List Token) (hre : recombineSkipped st.l st.skipped = .ok toks) (dt : DT) (tz : TzDescr)
+    (hfin : finishOf info o tznames tzi dflt st.ymd st.res = .ok { dt := dt, tz := tz, tokens := none }) :
+    parseResult cls info o tznames tzi dflt l = .ok { dt := dt, tz := tz, tokens := some toks } := by
+  unfold finishOf afterValidate at hfin
+  unfold parseResult parseTokens parseTry
+  simp only [hfwt, Bool.or_true, hloop, bind, Except.bind, throw, throwThe, MonadExceptOf.throw]
+  cases hr : st.ymd.resolve (o.yearfirst.getD info.yearfirst) (o.dayfirst.getD info.dayfirst) with
+  | error e =>
+    simp only [hr] at hfin
+    by_cases hc : caughtInParse e = true <;> simp [hc] at hfin
+  | ok ymdv =>
+    obtain ⟨y, m, d⟩ := ymdv
+    simp only [hr] at hfin
+    simp only [pure, Except.pure]
+    cases hv : validate info { st.res with centurySpecified := st.ymd.century, year := y, month := m, day := d } with
+    | error e => simp [hv] at hfin
+    | ok res2 =>
+      simp only [hv] at hfin
+      simp only [if_true, hre]
+      by_cases hlen : res2.len = 0
+      · simp [hlen] at hfin
+      · simp only [hlen, if_false] at hfin ⊢
+        cases hb : buildNaive res2 dflt with
+        | error e => cases e <;> simp [hb] at hfin
+        | ok naive =>
+          simp only [hb] at hfin ⊢
+          by_cases hig : o.ignoretz = true
+          · simp only [hig, if_true] at hfin ⊢
+            injection hfin with hfin
+            injection hfin with h1 h2 h3
+            simp [h1, h2]
+          · simp only [hig, if_false, Bool.false_eq_true] at hfin ⊢
+            cases hz : buildTzaware tznames tzi res2 with
+            | error e => cases e <;> simp [hz] at hfin
+            | ok z =>
+              simp only [hz] at hfin ⊢
+              injection hfin with hfin
+              injection hfin with h1 h2 h3
+              simp [h1, h2]
+
+theorem nil_or_snoc {α} (l : List α) : l = [] ∨ ∃ us u, l = us ++ [u] := by
+  cases h : l.reverse with
+  | nil => left; simpa using h
+  | cons u r =>
+    right
+    refine ⟨r.reverse, u, ?_⟩
+    have := congrArg List.reverse h
+    simpa using this
+
+/-- **the answer for a sentence**: `parse` returns the datetime `dt` (naive), and — when `fuzzy_with_tokens` is asked for — the token
+    tuple `toks`, which is `_recombine_skipped` of a list of skipped indices that contains EVERY token in front of position `a` and
+    EVERY token from position `b` on (the words around the rendering, which occupies positions `a … b-1`) -/
+def SentenceAnswer (cls : Char → CClass) (info : Info) (o : Opts) (tznames : List Token) (tzi : TzInfos) (dflt : DT)
+    (text : List Char) (dt : DT) (a b : Nat) : Prop :=
+  ∃ (toks : List Token) (sk : List Nat), recombineSkipped (lex cls text) sk = .ok toks ∧
+    (∀ i, (i < a ∨ (b ≤ i ∧ i < (lex cls text).length)) → i ∈ sk) ∧
+    parse cls info o tznames tzi dflt text = .ok { dt := dt, tz := .naive, tokens := if o.fuzzyWithTokens then some toks else none }
+
 /-- `finishOf` does not look at the fuzzy flags -/
 theorem finishOf_strict (info : Info) (o : Opts) (tznames : List Token) (tzi : TzInfos) (dflt : DT) (ymd : Ymd) (res : Res) :
     finishOf info o tznames tzi dflt ymd res =
       finishOf info { o with fuzzy := false, fuzzyWithTokens := false } tznames tzi dflt ymd res := rfl
 
 /-- **the sentence schema**: a rendering whose token scan is proved (in fuzzy mode) for the filler behind it as suffix, followed by
-    any number of filler words, parses with `fuzzy=True` to what the rendering alone parses to. -/
+    any number of filler words, parses with `fuzzy=True` or `fuzzy_with_tokens=True` to what the rendering alone parses to; the
+    token tuple is `_recombine_skipped` of the skipped indices — the rendering's own separators `skC` and EVERY filler token. -/
 theorem tpl_sentence (cls : Char → CClass) [AsciiOK cls] (df yf : Bool) (year century : Int) (o : Opts) (tznames : List Token)
-    (tzi : TzInfos) (hfz : o.fuzzy = true) (hfwt : o.fuzzyWithTokens = false) (dflt : DT)
+    (tzi : TzInfos) (hf : (o.fuzzy || o.fuzzyWithTokens) = true) (dflt : DT)
     (str : List Char) (core : List Token) (n : Nat) (hn : core.length = n)
-    (rC : Res) (yC : Ymd) (skC : List Nat) (dt : DT) (ws : List Token) (hws : ∀ w ∈ ws, fillerWord w = true)
+    (rC : Res) (yC : Ymd) (skC : List Nat) (hsk : ∀ k ∈ skC, k < n) (dt : DT) (ws : List Token) (hws : ∀ w ∈ ws, fillerWord w = true)
     (hlex : scan cls .init (str ++ fillerChars ws) = core ++ scan cls .init (fillerChars ws))
     (hcore : parseLoop cls (Info.default df yf year century) true ((fillerToks ws).length + n) ((fillerToks ws).length + n) 0 0
         { l := core ++ fillerToks ws } =
@@ -238,26 +312,46 @@ theorem tpl_sentence (cls : Char → CClass) [AsciiOK cls] (df yf : Bool) (year 
         { l := core ++ fillerToks ws, res := rC, ymd := yC, skipped := skC })
     (hfin : finishOf (Info.default df yf year century) { o with fuzzy := false, fuzzyWithTokens := false } tznames tzi dflt yC rC =
       .ok { dt := dt, tz := .naive, tokens := none }) :
-    parse cls (Info.default df yf year century) o tznames tzi dflt (str ++ fillerChars ws) =
-      .ok { dt := dt, tz := .naive, tokens := none } := by
-  unfold parse lex
-  rw [hlex, lex_filler cls ws hws]
+    SentenceAnswer cls (Info.default df yf year century) o tznames tzi dflt (str ++ fillerChars ws) dt 0 n := by
+  have hlexall : lex cls (str ++ fillerChars ws) = core ++ fillerToks ws := by
+    unfold lex; rw [hlex, lex_filler cls ws hws]
+  unfold SentenceAnswer parse
+  rw [hlexall]
   have hlen : (core ++ fillerToks ws).length = (fillerToks ws).length + n := by simp [hn]; omega
   have hloop : parseLoop cls (Info.default df yf year century) true (core ++ fillerToks ws).length (core ++ fillerToks ws).length 0 0
       { l := core ++ fillerToks ws } =
-      .ok { l := core ++ fillerToks ws, res := rC, ymd := yC, skipped := skC ++ List.range' core.length (fillerToks ws).length } := by
+      .ok { l := core ++ fillerToks ws, res := rC, ymd := yC, skipped := skC ++ List.range' n (fillerToks ws).length } := by
     rw [hlen, hcore, ← hn]
     exact inert_run cls _ _ rC yC (fillerToks ws) (inert_fillerToks cls df yf year century ws hws) core skC
-  rw [parseResult_of_loop_fuzzy cls _ o tznames tzi dflt _ _ hfz hfwt hloop, finishOf_strict]
-  exact hfin
+  obtain ⟨toks, hre⟩ := recombine_ok (core ++ fillerToks ws) (skC ++ List.range' n (fillerToks ws).length) (by
+    intro k hk
+    rw [hlen]
+    rcases List.mem_append.mp hk with h | h
+    · have := hsk k h; omega
+    · have := List.mem_range'_1.mp h; omega)
+  refine ⟨toks, _, hre, ?_, ?_⟩
+  · intro i hi
+    rcases hi with hi | ⟨h1, h2⟩
+    · omega
+    · rw [hlen] at h2
+      exact List.mem_append_right _ (List.mem_range'_1.mpr ⟨h1, by omega⟩)
+  by_cases hfwt : o.fuzzyWithTokens = true
+  · rw [parseResult_of_loop_fwt cls _ o tznames tzi dflt _ _ hfwt hloop toks hre dt .naive (by rw [finishOf_strict]; exact hfin)]
+    simp [hfwt]
+  · have hfz : o.fuzzy = true := by
+      cases h1 : o.fuzzy <;> cases h2 : o.fuzzyWithTokens <;> simp_all
+    have hfwt' : o.fuzzyWithTokens = false := by simpa using hfwt
+    rw [parseResult_of_loop_fuzzy cls _ o tznames tzi dflt _ _ hfz hfwt' hloop, finishOf_strict, hfin]
+    simp [hfwt']
 
 /-- **the sentence schema, words on both sides**: at least one filler word in front (then a space), the rendering, any number of
-    filler words behind: `fuzzy=True` gives what the rendering alone parses to.  `hcore` is the scan over the rendering's tokens at
-    ANY position `pre.length + 1` of the token list (the generated `runp_*` lemmas). -/
+    filler words behind: `fuzzy=True` / `fuzzy_with_tokens=True` give what the rendering alone parses to, and the token tuple is
+    `_recombine_skipped` of: every token in front, the rendering's own separators, every token behind.  `hcore` is the scan over the
+    rendering's tokens at ANY position `pre.length + 1` of the token list (the generated `runp_*` lemmas). -/
 theorem tpl_sentence_lead (cls : Char → CClass) [AsciiOK cls] (df yf : Bool) (year century : Int) (o : Opts) (tznames : List Token)
-    (tzi : TzInfos) (hfz : o.fuzzy = true) (hfwt : o.fuzzyWithTokens = false) (dflt : DT)
+    (tzi : TzInfos) (hf : (o.fuzzy || o.fuzzyWithTokens) = true) (dflt : DT)
     (str : List Char) (core : List Token) (n : Nat) (hn : core.length = n)
-    (rC : Res) (yC : Ymd) (skC : Nat → List Nat) (dt : DT)
+    (rC : Res) (yC : Ymd) (skC : Nat → List Nat) (hsk : ∀ p, ∀ k ∈ skC p, k < p + (n + 1)) (dt : DT)
     (us : List Token) (u : Token) (hus : ∀ w ∈ us ++ [u], fillerWord w = true)
     (ws : List Token) (hws : ∀ w ∈ ws, fillerWord w = true)
     (hlex : scan cls .init (str ++ fillerChars ws) = core ++ scan cls .init (fillerChars ws))
@@ -269,13 +363,16 @@ theorem tpl_sentence_lead (cls : Char → CClass) [AsciiOK cls] (df yf : Bool) (
           { l := pre ++ ([' '] :: core ++ fillerToks ws), res := rC, ymd := yC, skipped := sk0 ++ skC pre.length })
     (hfin : finishOf (Info.default df yf year century) { o with fuzzy := false, fuzzyWithTokens := false } tznames tzi dflt yC rC =
       .ok { dt := dt, tz := .naive, tokens := none }) :
-    parse cls (Info.default df yf year century) o tznames tzi dflt (leadChars (us ++ [u]) ++ (str ++ fillerChars ws)) =
-      .ok { dt := dt, tz := .naive, tokens := none } := by
-  unfold parse lex
-  rw [lex_lead cls (us ++ [u]) hus, hlex, lex_filler cls ws hws]
+    SentenceAnswer cls (Info.default df yf year century) o tznames tzi dflt (leadChars (us ++ [u]) ++ (str ++ fillerChars ws)) dt
+      (leadToks (us ++ [u])).length ((leadToks (us ++ [u])).length + n) := by
   have htoks : leadToks (us ++ [u]) ++ (core ++ fillerToks ws) = (leadToks us ++ [u]) ++ ([' '] :: core ++ fillerToks ws) := by
     simp [leadToks, List.flatMap_append]
-  rw [htoks]
+  have hlexall : lex cls (leadChars (us ++ [u]) ++ (str ++ fillerChars ws)) = (leadToks us ++ [u]) ++ ([' '] :: core ++ fillerToks ws) := by
+    unfold lex; rw [lex_lead cls (us ++ [u]) hus, hlex, lex_filler cls ws hws, htoks]
+  have hleadlen : (leadToks (us ++ [u])).length = (leadToks us ++ [u]).length + 1 := by
+    simp [leadToks, List.flatMap_append]
+  unfold SentenceAnswer parse
+  rw [hlexall, hleadlen]
   generalize hpre : leadToks us ++ [u] = pre
   have hpi : ∀ v ∈ pre ++ [[' ']], Inert cls (Info.default df yf year century) v := by
     intro v hv
@@ -301,8 +398,8 @@ theorem tpl_sentence_lead (cls : Char → CClass) [AsciiOK cls] (df yf : Bool) (
         .ok { l := pre ++ ([' '] :: core ++ fillerToks ws), res := rC, ymd := yC,
               skipped := (List.range' 0 (pre.length + 1) ++ skC pre.length) ++
                 List.range' (pre.length + (n + 1)) (fillerToks ws).length } := by
-      intro fuel hf
-      subst hf
+      intro fuel hfu
+      subst hfu
       simp only [List.cons_append, List.append_assoc, List.nil_append] at s1 ⊢
       rw [s1]
       -- (2) the rendering, (3) the words behind
@@ -317,7 +414,28 @@ theorem tpl_sentence_lead (cls : Char → CClass) [AsciiOK cls] (df yf : Bool) (
       simp [parseLoop]
     rw [hlen]
     exact main _ (by omega)
-  rw [parseResult_of_loop_fuzzy cls _ o tznames tzi dflt _ _ hfz hfwt hloop, finishOf_strict]
-  exact hfin
+  obtain ⟨toks, hre⟩ := recombine_ok (pre ++ ([' '] :: core ++ fillerToks ws))
+    ((List.range' 0 (pre.length + 1) ++ skC pre.length) ++ List.range' (pre.length + (n + 1)) (fillerToks ws).length) (by
+    intro k hk
+    rw [hlen]
+    rcases List.mem_append.mp hk with h | h
+    · rcases List.mem_append.mp h with h | h
+      · have := List.mem_range'_1.mp h; omega
+      · have := hsk pre.length k h; omega
+    · have := List.mem_range'_1.mp h; omega)
+  refine ⟨toks, _, hre, ?_, ?_⟩
+  · intro i hi
+    rcases hi with hi | ⟨h1, h2⟩
+    · exact List.mem_append_left _ (List.mem_append_left _ (List.mem_range'_1.mpr ⟨by omega, by omega⟩))
+    · rw [hlen] at h2
+      exact List.mem_append_right _ (List.mem_range'_1.mpr ⟨by omega, by omega⟩)
+  by_cases hfwt : o.fuzzyWithTokens = true
+  · rw [parseResult_of_loop_fwt cls _ o tznames tzi dflt _ _ hfwt hloop toks hre dt .naive (by rw [finishOf_strict]; exact hfin)]
+    simp [hfwt]
+  · have hfz : o.fuzzy = true := by
+      cases h1 : o.fuzzy <;> cases h2 : o.fuzzyWithTokens <;> simp_all
+    have hfwt' : o.fuzzyWithTokens = false := by simpa using hfwt
+    rw [parseResult_of_loop_fuzzy cls _ o tznames tzi dflt _ _ hfz hfwt' hloop, finishOf_strict, hfin]
+    simp [hfwt']
 
 end PM
